@@ -495,7 +495,7 @@ def r4(ctx, rep):
 
 # ---------------------------------------------------------------------------
 def r5(ctx, rep):
-    rep.rule("C02.R5", "needs_parentheses / translate_operand / wrap_in_parenthesis decision shape", floor=8)
+    rep.rule("C02.R5", "needs_parentheses / translate_operand / wrap_in_parenthesis decision shape", floor=9)
     syn = ctx.syn
     f = syn.fn("gen_expr::needs_parentheses", crate="prqlc")
     m = None
@@ -577,6 +577,31 @@ def r5(ctx, rep):
                 if fname == "binding_strength":
                     v = lit_val(fv)
                     okw = isinstance(v, int) and v > maxop
+    # .. and the text of a source is parenthesised on every path: whether a text "is already parenthesised" cannot be told from its first and
+    # last character (`(b + 1) % (c + 1)`), so the wrap must not depend on the text
+    import alpha as _alpha
+    Aw = _alpha.Inliner(w)
+    uncond = False
+    for n in walk(w["body"]):
+        if n.get("k") == "struct" and last_seg(n["p"]) == "SourceExpr":
+            tv = dict(n["f"]).get("text")
+            if tv is not None:
+                cur, ok_chain = tv, True
+                for _ in range(4):
+                    if cur.get("k") == "path" and "::" not in cur["p"]:
+                        init = Aw._init_of(cur, cur["p"])
+                        if init is None:
+                            break
+                        cur = init
+                    else:
+                        break
+                if cur.get("k") == "macro" and cur.get("n") == "format" and cur.get("a"):
+                    fm = lit_val(cur["a"][0])
+                    uncond = isinstance(fm, str) and fm.startswith("(") and fm.endswith(")") and fm.count("{") == 1
+                elif cur.get("k") in ("if", "match"):
+                    uncond = False
+    rep.check(uncond, "wrap_in_parenthesis:unconditional", "wrap_in_parenthesis must put the text of a source between `(` and `)` unconditionally (`format!(\"({text})\")`): a textual test for existing "
+              "parentheses takes `(b + 1) % (c + 1)` for wrapped and `a * ((b + 1) % (c + 1))` regroups", file=w["file"], line=w["l"], fn=w["path"])
     nested = any(n.get("k") == "call" and show(n["f"]).endswith("Expr::Nested") for n in walk(w["body"]))
     rep.check(okw and nested, "wrap_in_parenthesis", f"wrap_in_parenthesis must yield Expr::Nested / a source with strength above every operator ({maxop})", file=w["file"], line=w["l"], fn=w["path"])
 
